@@ -38,7 +38,96 @@ type c09Result struct {
 	outcome string
 }
 
+// c09LostExec: scenario connections-lost. Listener 1 has two TCP backends; both are connected by
+// two requests, then both peers close their connections; then two more requests (which have to
+// re-connect) and a TCP client on listener 2 are injected at once.
+func c09LostExec(prefix []int) c09Result {
+	cfg := RCfg{Name: "svc.example.com", Listens: []RListen{
+		{Addr: "127.0.0.1", UDP: 5060, TCP: 5062, Backends: []string{"tcp://127.0.1.2:7000", "tcp://127.0.1.5:7000"}},
+		{Addr: "127.0.0.2", UDP: 5060, TCP: 5062, Backends: []string{"udp://127.0.1.3:7000", "tcp://127.0.1.4:7000"}}}}
+	s := StartSim(ConfigYAML(cfg), SimOpts{})
+	defer s.Close()
+	c09UDPBackend("127.0.1.3:7000")
+	for _, a := range []string{"127.0.1.2:7000", "127.0.1.5:7000", "127.0.1.4:7000"} {
+		c09TCPBackend(a)
+	}
+	uaA := s.UDPPeer("127.0.0.9:5060")
+	uaC := s.UDPPeer("127.0.0.7:5060")
+	cliB, err := s.TCPDial("127.0.0.8:0", "127.0.0.2:5062")
+	if err != nil {
+		panic(err)
+	}
+	s.Run()
+	// both backend connections of listener 1 come up ...
+	uaA.Send("127.0.0.1:5060", c09Req("P1", "UDP", "127.0.0.9:5060", ""))
+	s.Run()
+	uaA.Send("127.0.0.1:5060", c09Req("P2", "UDP", "127.0.0.9:5060", ""))
+	s.Run()
+	// ... and are closed by the peers
+	for _, c := range vnet.Conns() {
+		if c.IsDriver() && !c.IsClosed() && (c.LocalString() == "127.0.1.2:7000" || c.LocalString() == "127.0.1.5:7000") {
+			c.Close()
+		}
+	}
+	s.Run()
+	s.EmittedAll()
+	s.W.SetExplore(vrt.KSched|vrt.KSelect, prefix)
+	uaA.Send("127.0.0.1:5060", c09Req("A", "UDP", "127.0.0.9:5060", ""))
+	cliB.Write(c09Req("B", "TCP", "127.0.0.8:5060", ""))
+	uaC.Send("127.0.0.1:5060", c09Req("C", "UDP", "127.0.0.7:5060", ""))
+	s.Run()
+	res := c09Result{trace: s.W.TraceCopy()}
+	if vd := s.Verdict(); vd != "" {
+		res.clause, res.detail = "health", vd+"\n"+s.CrashDetail()
+		if strings.HasPrefix(vd, "crash") {
+			res.clause = "crash"
+		} else if strings.HasPrefix(vd, "deadlock") {
+			res.clause = "deadlock"
+		}
+		return res
+	}
+	reqTo := map[string][]string{}
+	for _, p := range s.EmittedAll() {
+		if p.Proto == "dial" || bytes.HasPrefix(p.Data, []byte("SIP/2.0")) {
+			continue
+		}
+		for _, id := range []string{"A", "B", "C"} {
+			if bytes.Contains(p.Data, []byte("Call-ID: c09-"+id+"\r\n")) {
+				reqTo[id] = append(reqTo[id], p.To)
+			}
+		}
+	}
+	own := map[string][]string{"A": {"127.0.1.2:7000", "127.0.1.5:7000"}, "C": {"127.0.1.2:7000", "127.0.1.5:7000"}, "B": {"127.0.1.3:7000", "127.0.1.4:7000"}}
+	var oc []string
+	for _, id := range []string{"A", "B", "C"} {
+		to := reqTo[id]
+		if len(to) != 1 {
+			res.clause, res.detail = "request-lost", fmt.Sprintf("after both TCP backend connections of listener 1 were closed by their peers, request %s was sent to %v (expected exactly one backend: the proxy re-connects)", id, to)
+			if len(to) > 1 {
+				res.clause = "request-to-several-backends"
+			}
+			return res
+		}
+		ok := false
+		for _, o := range own[id] {
+			if o == to[0] {
+				ok = true
+			}
+		}
+		if !ok {
+			res.clause, res.detail = "request-to-foreign-backend", fmt.Sprintf("request %s went to %s, not a backend of its listener %v", id, to[0], own[id])
+			return res
+		}
+		oc = append(oc, id+":"+to[0])
+	}
+	res.outcome = strings.Join(oc, " ")
+	return res
+}
+
 func c09Exec(scenario string, prefix []int) c09Result {
+	if scenario == "connections-lost" {
+		return c09LostExec(prefix)
+	}
 	be1 := "udp://be1.example.net:7000"
 	if scenario == "tcp-backend-churn" {
 		be1 = "tcp://be1.example.net:7000"
@@ -217,9 +306,9 @@ func c09RaceRun(c *Ctx) {
 		scenario string
 		bound    int
 	}
-	plans := []plan{{"two-clients", 2}, {"tcp-backend-churn", 1}, {"shrink", 1}, {"named-hops", 1}}
+	plans := []plan{{"two-clients", 2}, {"tcp-backend-churn", 1}, {"shrink", 1}, {"named-hops", 1}, {"connections-lost", 1}}
 	if c.Thorough() {
-		plans = []plan{{"two-clients", 3}, {"three-clients", 3}, {"tcp-backend-churn", 2}, {"shrink", 2}, {"named-hops", 2}}
+		plans = []plan{{"two-clients", 3}, {"three-clients", 3}, {"tcp-backend-churn", 2}, {"shrink", 2}, {"named-hops", 2}, {"connections-lost", 2}}
 	}
 	if v := os_Getenv("VERIF_C09_BOUND"); v != "" {
 		var b int
@@ -264,7 +353,7 @@ var _ = net.IPv4zero
 
 func init() {
 	addCheck(&Check{ID: "C09", Level: "model_checking", Race: true,
-		Rule:    "stateless depth-first search over schedules with deviation bounding (every non-default choice of the next goroutine or the firing select case costs one deviation) of the REAL proxy built with -race: two listens entries of one service (each UDP+TCP listener, each with its own UDP and TCP backend; one backend by host name), a UDP client on listener 1 and a TCP client on listener 2 (thorough: plus a UDP client on listener 2 announcing the same Via host), reactive backend doubles answering every request, and a membership change (remove + add) through the real resolver callback path, all injected without waiting; scenarios two-clients (<=2 deviations, thorough <=3), three-clients (thorough <=2), tcp-backend-churn (host-name TCP backend connected, removed and replaced while three requests are dispatched; <=1, thorough <=2), shrink (a host name resolving to two of listener 1's three backends loses one address while three requests walk the rotation; <=1, thorough <=2), named-hops (requests on both listeners carry Route headers naming next hops by host name, resolved through the simulated DNS, while the membership changes; <=1, thorough <=2); every execution is checked by the oracle on the packet log AND by the Go race detector, whose hand-off-blind view is obtained by a norace spin scheduler; states = executions, transitions = choice points visited; non-trivial = execution with at least one deviation",
+		Rule:    "stateless depth-first search over schedules with deviation bounding (every non-default choice of the next goroutine or the firing select case costs one deviation) of the REAL proxy built with -race: two listens entries of one service (each UDP+TCP listener, each with its own UDP and TCP backend; one backend by host name), a UDP client on listener 1 and a TCP client on listener 2 (thorough: plus a UDP client on listener 2 announcing the same Via host), reactive backend doubles answering every request, and a membership change (remove + add) through the real resolver callback path, all injected without waiting; scenarios two-clients (<=2 deviations, thorough <=3), three-clients (thorough <=2), tcp-backend-churn (host-name TCP backend connected, removed and replaced while three requests are dispatched; <=1, thorough <=2), shrink (a host name resolving to two of listener 1's three backends loses one address while three requests walk the rotation; <=1, thorough <=2), named-hops (requests on both listeners carry Route headers naming next hops by host name, resolved through the simulated DNS, while the membership changes; <=1, thorough <=2), connections-lost (both TCP backend connections of listener 1 were closed by their peers; two requests that have to re-connect and a TCP client on listener 2 arrive at once; <=1, thorough <=2); every execution is checked by the oracle on the packet log AND by the Go race detector, whose hand-off-blind view is obtained by a norace spin scheduler; states = executions, transitions = choice points visited; non-trivial = execution with at least one deviation",
 		Assume:  []string{"scheduling points are synchronisation operations, select, socket reads; unsynchronised accesses are reported by the race detector on every explored execution", "socket operations carry exactly the happens-before edges the Go runtime gives them on unix (per-descriptor ordering; global ioSync word for stream read/write; none for datagrams)", "a request whose chosen backend is removed concurrently may be lost (the statement's 'registered at that moment')"},
 		Run:     func(c *Ctx) {},
 		RaceRun: c09RaceRun,
